@@ -202,14 +202,16 @@ enum UnionMode {
 /// This is used for type checking (can I assign this value to this variable?).
 pub fn is_compatible<T: TypeLookup>(self_id: usize, pattern_id: usize, lookup: &T) -> bool {
     let mut assumptions = Vec::new();
-    let mut type_stack = Vec::new();
+    let mut self_stack = Vec::new();
+    let mut pattern_stack = Vec::new();
     check_type_relation(
         self_id,
         pattern_id,
         lookup,
         UnionMode::All,
         &mut assumptions,
-        &mut type_stack,
+        &mut self_stack,
+        &mut pattern_stack,
     )
 }
 
@@ -221,14 +223,16 @@ pub fn is_compatible<T: TypeLookup>(self_id: usize, pattern_id: usize, lookup: &
 /// This is used for pattern matching (could this value possibly match this pattern?).
 pub fn types_overlap<T: TypeLookup>(self_id: usize, pattern_id: usize, lookup: &T) -> bool {
     let mut assumptions = Vec::new();
-    let mut type_stack = Vec::new();
+    let mut self_stack = Vec::new();
+    let mut pattern_stack = Vec::new();
     check_type_relation(
         self_id,
         pattern_id,
         lookup,
         UnionMode::Any,
         &mut assumptions,
-        &mut type_stack,
+        &mut self_stack,
+        &mut pattern_stack,
     )
 }
 
@@ -247,7 +251,8 @@ fn check_type_relation<T: TypeLookup>(
     lookup: &T,
     mode: UnionMode,
     assumptions: &mut Vec<(usize, usize)>,
-    type_stack: &mut Vec<usize>,
+    self_stack: &mut Vec<usize>,
+    pattern_stack: &mut Vec<usize>,
 ) -> bool {
     // Fast path: same ID always satisfies the relation
     if self_id == pattern_id {
@@ -290,26 +295,43 @@ fn check_type_relation<T: TypeLookup>(
         // When both are cycles with same depth, they refer to the same recursive type
         (Type::Cycle(d1), Type::Cycle(d2)) if d1 == d2 => true,
 
-        // Handle cycles by looking up the type in the stack
+        // Handle cycles by looking up the type in the stack of its own side: a back-reference
+        // in `self` names a union/function enclosing it in `self`, not one of the pattern's.
         (Type::Cycle(depth), _) => {
-            if type_stack.len() < *depth {
+            if self_stack.len() < *depth {
                 return true; // Coinductive reasoning
             }
-            let lookup_index = type_stack.len() - *depth;
-            if let Some(&stack_id) = type_stack.get(lookup_index) {
-                check_type_relation(stack_id, pattern_id, lookup, mode, assumptions, type_stack)
+            let lookup_index = self_stack.len() - *depth;
+            if let Some(&stack_id) = self_stack.get(lookup_index) {
+                check_type_relation(
+                    stack_id,
+                    pattern_id,
+                    lookup,
+                    mode,
+                    assumptions,
+                    self_stack,
+                    pattern_stack,
+                )
             } else {
                 true
             }
         }
 
         (_, Type::Cycle(depth)) => {
-            if type_stack.len() < *depth {
+            if pattern_stack.len() < *depth {
                 return true;
             }
-            let lookup_index = type_stack.len() - *depth;
-            if let Some(&stack_id) = type_stack.get(lookup_index) {
-                check_type_relation(self_id, stack_id, lookup, mode, assumptions, type_stack)
+            let lookup_index = pattern_stack.len() - *depth;
+            if let Some(&stack_id) = pattern_stack.get(lookup_index) {
+                check_type_relation(
+                    self_id,
+                    stack_id,
+                    lookup,
+                    mode,
+                    assumptions,
+                    self_stack,
+                    pattern_stack,
+                )
             } else {
                 true
             }
@@ -323,6 +345,10 @@ fn check_type_relation<T: TypeLookup>(
             let mark = assumptions.len();
             assumptions.push(key);
 
+            let already_on_stack = self_stack.contains(&self_id);
+            if !already_on_stack {
+                self_stack.push(self_id);
+            }
             let result = match mode {
                 UnionMode::All => variants.iter().all(|&variant_id| {
                     check_type_relation(
@@ -331,7 +357,8 @@ fn check_type_relation<T: TypeLookup>(
                         lookup,
                         mode,
                         assumptions,
-                        type_stack,
+                        self_stack,
+                        pattern_stack,
                     )
                 }),
                 UnionMode::Any => variants.iter().any(|&variant_id| {
@@ -341,10 +368,14 @@ fn check_type_relation<T: TypeLookup>(
                         lookup,
                         mode,
                         assumptions,
-                        type_stack,
+                        self_stack,
+                        pattern_stack,
                     )
                 }),
             };
+            if !already_on_stack {
+                self_stack.pop();
+            }
             if !result {
                 assumptions.truncate(mark);
             }
@@ -360,15 +391,23 @@ fn check_type_relation<T: TypeLookup>(
             let mark = assumptions.len();
             assumptions.push(key);
 
-            let already_on_stack = type_stack.contains(&pattern_id);
+            let already_on_stack = pattern_stack.contains(&pattern_id);
             if !already_on_stack {
-                type_stack.push(pattern_id);
+                pattern_stack.push(pattern_id);
             }
             let result = variants.iter().any(|&variant_id| {
-                check_type_relation(self_id, variant_id, lookup, mode, assumptions, type_stack)
+                check_type_relation(
+                    self_id,
+                    variant_id,
+                    lookup,
+                    mode,
+                    assumptions,
+                    self_stack,
+                    pattern_stack,
+                )
             });
             if !already_on_stack {
-                type_stack.pop();
+                pattern_stack.pop();
             }
             if !result {
                 assumptions.truncate(mark);
@@ -404,7 +443,8 @@ fn check_type_relation<T: TypeLookup>(
                                 lookup,
                                 mode,
                                 assumptions,
-                                type_stack,
+                                self_stack,
+                                pattern_stack,
                             )
                     },
                 )
@@ -442,7 +482,8 @@ fn check_type_relation<T: TypeLookup>(
                                 lookup,
                                 mode,
                                 assumptions,
-                                type_stack,
+                                self_stack,
+                                pattern_stack,
                             )
                     })
             })
@@ -474,7 +515,8 @@ fn check_type_relation<T: TypeLookup>(
                             lookup,
                             mode,
                             assumptions,
-                            type_stack,
+                            self_stack,
+                            pattern_stack,
                         )
                 })
             })
@@ -492,16 +534,28 @@ fn check_type_relation<T: TypeLookup>(
             },
         ) => {
             let send_ok = match (send1, send2) {
-                (Some(s1), Some(s2)) => {
-                    check_type_relation(*s1, *s2, lookup, mode, assumptions, type_stack)
-                }
+                (Some(s1), Some(s2)) => check_type_relation(
+                    *s1,
+                    *s2,
+                    lookup,
+                    mode,
+                    assumptions,
+                    self_stack,
+                    pattern_stack,
+                ),
                 (None, _) | (_, None) => true,
             };
 
             let receive_ok = match (receive1, receive2) {
-                (Some(r1), Some(r2)) => {
-                    check_type_relation(*r1, *r2, lookup, mode, assumptions, type_stack)
-                }
+                (Some(r1), Some(r2)) => check_type_relation(
+                    *r1,
+                    *r2,
+                    lookup,
+                    mode,
+                    assumptions,
+                    self_stack,
+                    pattern_stack,
+                ),
                 (None, _) | (_, None) => true,
             };
 
@@ -521,33 +575,48 @@ fn check_type_relation<T: TypeLookup>(
                 receive: receive2,
             },
         ) => {
-            let already_on_stack = type_stack.contains(&pattern_id);
-            if !already_on_stack {
-                type_stack.push(pattern_id);
+            let self_on_stack = self_stack.contains(&self_id);
+            if !self_on_stack {
+                self_stack.push(self_id);
+            }
+            let pattern_on_stack = pattern_stack.contains(&pattern_id);
+            if !pattern_on_stack {
+                pattern_stack.push(pattern_id);
             }
 
-            // Parameters are contravariant, results are covariant, receive is contravariant
-            let result =
-                check_type_relation(*param2, *param1, lookup, mode, assumptions, type_stack)
-                    && check_type_relation(
-                        *result1,
-                        *result2,
-                        lookup,
-                        mode,
-                        assumptions,
-                        type_stack,
-                    )
-                    && check_type_relation(
-                        *receive2,
-                        *receive1,
-                        lookup,
-                        mode,
-                        assumptions,
-                        type_stack,
-                    );
+            // Parameters are contravariant, results are covariant, receive is contravariant.
+            // In the contravariant positions the two sides (and with them their stacks) swap.
+            let result = check_type_relation(
+                *param2,
+                *param1,
+                lookup,
+                mode,
+                assumptions,
+                pattern_stack,
+                self_stack,
+            ) && check_type_relation(
+                *result1,
+                *result2,
+                lookup,
+                mode,
+                assumptions,
+                self_stack,
+                pattern_stack,
+            ) && check_type_relation(
+                *receive2,
+                *receive1,
+                lookup,
+                mode,
+                assumptions,
+                pattern_stack,
+                self_stack,
+            );
 
-            if !already_on_stack {
-                type_stack.pop();
+            if !pattern_on_stack {
+                pattern_stack.pop();
+            }
+            if !self_on_stack {
+                self_stack.pop();
             }
             result
         }
